@@ -257,6 +257,12 @@ func checkC03(c *Ctx) {
 			for _, av := range advance {
 				tgt := o.arming[av.Static]
 				mid := complitField(av.p.Resolve(av.Common.Args[tgt.pktIdx]), "MessageId")
+				if mid == nil {
+					// built by a constructor (pubRelFor(stored.MessageId)): the literal's field with the argument bound
+					if b := c.builtObject(av.p.Resolve(av.Common.Args[tgt.pktIdx])); b != nil {
+						mid = b.field("MessageId")
+					}
+				}
 				if mid == nil || !fromStored(mid) {
 					bad = "the PUBREL built on PUBREC does not take its MessageId from the stored PUBLISH"
 				}
@@ -432,12 +438,12 @@ func checkC03(c *Ctx) {
 						for _, li := range lb.Instrs {
 							if sel, ok := li.(*ssa.Select); ok {
 								for _, st := range sel.States {
-									if st.Dir == types.RecvOnly && stringsContains(core.Term(st.Chan), "Ticker") && stringsContains(core.Term(st.Chan), ".C") {
+									if st.Dir == types.RecvOnly && ((stringsContains(core.Term(st.Chan), "Ticker") && stringsContains(core.Term(st.Chan), ".C")) || isTickerChan(st.Chan)) {
 										tick = true
 									}
 								}
 							}
-							if u, ok := li.(*ssa.UnOp); ok && u.Op == token.ARROW && stringsContains(core.Term(u.X), "Ticker") {
+							if u, ok := li.(*ssa.UnOp); ok && u.Op == token.ARROW && (stringsContains(core.Term(u.X), "Ticker") || isTickerChan(u.X)) {
 								tick = true
 							}
 						}
@@ -458,6 +464,16 @@ func checkC03(c *Ctx) {
 	c.rulePerRecipientWrites("C03-R6")
 	// the in-flight table's side of the contract (also decided under C04)
 	c.ruleAckResolution("C03-T")
+}
+
+// isTickerChan: v is the channel of a time.Ticker (t.C, whatever t is: a local, a parameter, a field).
+func isTickerChan(v ssa.Value) bool {
+	ld, ok := conversionsOnly(v).(*ssa.UnOp)
+	if !ok || ld.Op != token.MUL {
+		return false
+	}
+	fa, ok := ld.X.(*ssa.FieldAddr)
+	return ok && fieldNameOf(fa.X.Type(), fa.Field) == "C" && isNamed(fa.X.Type(), "time", "Ticker")
 }
 
 // encoderWrites lists calls of mqtt-protocol encoder methods in fn.
